@@ -257,6 +257,7 @@ func firstDiff(a, b string) string {
 //   - type assertions to types of package ast (a new assertion means a new case distinction on the node kind);
 //   - string literals (operators compared, error texts);
 //   - shapes of returned values.
+//
 // One line per element, sorted.
 func actionFingerprint(fd *ast.FuncDecl) string {
 	set := map[string]bool{}
